@@ -1,7 +1,7 @@
 (* C16 — WASI file operations behave like a POSIX-style reference model.
    Only statements, `exact <lemma>` and Print Assumptions live here. *)
 From Verif Require Import Lib.GoInt Gen.GenC16Wasip1 Sys.DescTable Proofs.DescTableP Sys.Dirent Proofs.DirentP
-  Sys.FsModel Proofs.FsModelP Sys.FsSlash Proofs.FsSlashP.
+  Sys.FsModel Proofs.FsModelP Sys.FsSlash Proofs.FsSlashP Sys.FsNorm Proofs.FsNormP.
 Open Scope Z_scope.
 
 (* ---- A. descriptor table (internal/descriptor/table.go) ----
@@ -272,3 +272,38 @@ Proof.
   exact (conj reachable_sl (conj run_sl_accepted (conj accepted_sub (conj run_sl_noflags reachable_sl_wf)))).
 Qed.
 Print Assumptions C16_trailing_slash_reachable.
+
+(* ---- C''. path arguments that are not clean: ".", "..", empty components, a leading '/' (Sys/FsNorm.v) ----
+   [norm rooted cs] is atPath's path.Clean + fs.ValidPath on the components of the raw string; [step_n] applies
+   it in front of step_sl and is what the fs stream compares the real host functions with.
+   (1) a clean path is left alone, and a call with a clean raw path is the call of part C' (a path that normalises
+       to the directory of the descriptor itself is handed on as "." and must be a directory: FsNorm.tflag);
+   (2) "." and empty components are invisible and "name/.." cancels, wherever they stand;
+   (3) the path is refused exactly when it is rooted or some prefix has more ".." than names — it can never
+       name anything outside the directory of its descriptor — and then the call fails with EPERM and changes
+       nothing, whatever the descriptor is;
+   (4) the normalisation is lexical (wazero; it never consults the file system), POSIX resolves one component
+       at a time: whenever the POSIX walk [pwalk] below a directory succeeds, [norm] names the same node; the
+       converse fails (Examples ex_posix_vs_lexical in Proofs/FsNormP.v: "missing/../a", "file/.");
+   (5) every call either is one FsModel operation or fails and changes nothing; the states [run_n] reaches are
+       reached by [run] on those operations ([effective_ops]), so the invariants of part C carry over. *)
+Theorem C16_path_normalisation :
+  (forall p, norm false (map CName p) = Some p) /\
+  (forall s k d p t, p <> [] -> step_n s (NRaw k d false (map CName p) t) = step_sl s (mk1 k d p) t false) /\
+  (forall s d1 p t1 d2 q t2,
+     step_n s (NRename d1 false (map CName p) t1 d2 false (map CName q) t2) = step_sl s (Rename d1 p d2 q) t1 t2) /\
+  (forall stack a b, clean stack (a ++ CDot :: b) = clean stack (a ++ b) /\ clean stack (a ++ CEmpty :: b) = clean stack (a ++ b)) /\
+  (forall stack a n b, clean stack (a ++ CName n :: CDotDot :: b) = clean stack (a ++ b)) /\
+  (forall rooted cs, norm rooted cs = None <->
+     rooted = true \/ exists k, (k <= length cs)%nat /\ (nnames (firstn k cs) < ndotdot (firstn k cs))%nat) /\
+  (forall s k d rooted cs t, norm rooted cs = None -> step_n s (NRaw k d rooted cs t) = (s, OErr ErrnoPerm)) /\
+  (forall t b cs st', pwalk t b [] cs = Some st' -> norm false cs = Some (rev st')) /\
+  (forall s x, (exists o, effective s x = Some o /\ step_n s x = step s o) \/
+               (effective s x = None /\ exists e, step_n s x = (s, OErr e))) /\
+  (forall l s, final_n s l = final s (effective_ops s l)) /\
+  (forall l, wf_tree (s_tree (final_n st_init l))).
+Proof.
+  exact (conj norm_clean (conj step_n_clean (conj step_n_rename_clean (conj clean_dot (conj clean_dotdot
+        (conj norm_none (conj step_n_escape (conj pwalk_clean (conj step_n_refines (conj reachable_n reachable_n_wf)))))))))).
+Qed.
+Print Assumptions C16_path_normalisation.
